@@ -1890,12 +1890,6 @@ fn g_simplify(r: &mut Rng) -> Vec<f64> {
                 let q = Point::new(r.uniform(-size, size), r.uniform(-size, size));
                 run.move_to(Point::ZERO);
                 run.line_to(q);
-            } else if level == 0.0 && r.chance(1, 5) {
-                // a run with a localised feature (3..4.5 x accuracy; see gen_bump_chain), subdividing fitter only:
-                // the optimising one loses such features on the pinned tree (known finding C18-opt-localised-feature)
-                let hk = r.uniform(3.0, 4.5);
-                let (n, i0, a) = gen_bump_chain(r, acc, hk);
-                run = bump_chain_path(n, i0, &a);
             } else {
                 let (a, th0, th1, step) = gen_analytic(r, size);
                 let nmin = (((th1 - th0).abs() / step).ceil() as usize).max(1);
@@ -2082,7 +2076,7 @@ fn law_fit_feature(v: &[f64]) -> Option<(String, String)> {
     if !(1e-4..=1.0).contains(&acc) {
         return None;
     }
-    // class = feature[-opt] : low|high : chain|analytic : <what failed>
+    // class = feature[-opt] : <what failed> : low|high : chain|analytic
     let band = if h.abs() <= 4.5 * acc { "low" } else { "high" };
     let fitter = if v[1] != 0.0 { "feature-opt" } else { "feature" };
     let res = if kind {
@@ -2101,7 +2095,7 @@ fn law_fit_feature(v: &[f64]) -> Option<(String, String)> {
     };
     res.map(|(cls, d)| {
         let what = cls.split_once(':').map(|x| x.1).unwrap_or(&cls).to_string();
-        (format!("{}:{}:{}:{}", fitter, band, if kind { "analytic" } else { "chain" }, what), format!("feature height {:.2} x accuracy: {}", h.abs() / acc, d))
+        (format!("{}:{}:{}:{}", fitter, what, band, if kind { "analytic" } else { "chain" }), format!("feature height {:.2} x accuracy: {}", h.abs() / acc, d))
     })
 }
 
@@ -2116,7 +2110,7 @@ fn laws() -> Vec<Law> {
 }
 
 /// Witnesses of the known findings (known_findings.txt): localised features the pinned fitters lose.
-const KNOWN_WITNESSES: [(&str, &str, [f64; 15]); 3] = [
+const KNOWN_WITNESSES: [(&str, &str, [f64; 15]); 4] = [
     (
         "C18-opt-localised-feature",
         "fit_to_bezpath_opt, chain of 38 G1 cubics, plateau of 9.2 x accuracy on the last three segments: 3 cubics, source point 3.6 x accuracy from the fit",
@@ -2131,6 +2125,11 @@ const KNOWN_WITNESSES: [(&str, &str, [f64; 15]); 3] = [
         "C18-subdiv-feature-overshoot",
         "fit_to_bezpath, analytic source, plateau of 4.3 x accuracy: fitted point 3.6 x accuracy from the source",
         [1.0, 0.0, 0.260298482009832, 0.0, 0.0, 5.0, 498.55150507017515, 2030.2260609200684, 0.8747960846691939, 2065.546658855443, -119.76568758827446, 1.1169482745772374, 0.19078702468213998, 0.013143792451330598, 0.05429741440472986],
+    ),
+    (
+        "C18-subdiv-feature-overshoot",
+        "fit_to_bezpath, chain of 38 G1 cubics, plateau of 4.1 x accuracy on segments 26..28: fitted point 3.6 x accuracy from the source",
+        [0.0, 0.0, 0.006099954686553126, 38.0, 26.0, 5.0, 24.32530998369149, 0.8953408766657631, 4.522490868049, 50.826634178373034, 0.017944137593141476, 0.024863732875247124, 0.6874449260686843, 0.019611552073143374, 0.03537026460740729],
     ),
 ];
 
